@@ -686,6 +686,32 @@ func run(c *runner.Ctx) {
 		c.Done(true, 4)
 	}
 
+	// field names beyond ASCII: exported means "starts with an upper-case letter" in Go's sense; lower-case two-byte
+	// initials (é, и, ω, ü), '_' and CJK initials are unexported
+	c.Space("field-names")
+	expNames := []string{"A", "Ärger", "Дата", "Ωmega", "Élan", "Z9", "Ǆ"}
+	unexpNames := []string{"a", "élan", "имя", "ωmega", "ünter", "_x", "内部", "ǆ", "z"}
+	for _, en := range expNames {
+		for _, un := range unexpNames {
+			for order := 0; order < 3; order++ {
+				if !c.Take() {
+					continue
+				}
+				e1 := reflect.StructField{Name: en, Type: tInt.t}
+				e2 := reflect.StructField{Name: en + "2", Type: tString.t}
+				u := reflect.StructField{Name: un, Type: tString.t, PkgPath: pkgPath}
+				sf := [][]reflect.StructField{{u, e1, e2}, {e1, u, e2}, {e1, e2, u}}[order]
+				nt := reflect.StructOf(sf)
+				outer := reflect.StructOf([]reflect.StructField{{Name: "L", Type: reflect.SliceOf(nt)}, {Name: en, Type: reflect.PointerTo(nt)}, {Name: un, Type: nt, PkgPath: pkgPath}})
+				for p := 0; p < 3; p++ {
+					checkFixed(c, ty{nt, fmt.Sprintf("struct with fields %s, %s2 and unexported %s (order %d), profile %d", en, en, un, order, p), true}, val(nt, p).Interface())
+					checkFixed(c, ty{outer, fmt.Sprintf("struct{L []T; %s *T; %s T} with T = fields %s, %s2, unexported %s, profile %d", en, un, en, en, un, p), true}, val(outer, p).Interface())
+				}
+				c.Done(true, 6)
+			}
+		}
+	}
+
 	c.Space("no-fields")
 	if c.Take() {
 		evalType(mkStruct(nil), []int{0})
